@@ -163,8 +163,12 @@ const Prelude = `
 (assert (forall ((s Slice) (i Int)) (! (= (saddr s i) (elem (sarr s) (+ (soff s) i))) :pattern ((saddr s i)))))
 (define-fun wfslice ((s Slice)) Bool (and (<= 0 (soff s)) (<= 0 (slen s)) (<= (slen s) (scap s)) (=> (= (sarr s) nil) (= (scap s) 0))))
 (define-fun trunc_int ((x Real)) Int (ite (>= x 0.0) (to_int x) (- (to_int (- x)))))
-(define-fun trunc8 ((x Real)) Real (/ (to_real (trunc_int (* x 100000000.0))) 100000000.0))
 (define-fun absr ((x Real)) Real (ite (>= x 0.0) x (- x)))
+(declare-fun trunc8 (Real) Real)
+(assert (forall ((x Real)) (! (and (<= (absr (trunc8 x)) (absr x)) (< (absr (- x (trunc8 x))) 0.00000001) (=> (>= x 0.0) (>= (trunc8 x) 0.0)) (=> (<= x 0.0) (<= (trunc8 x) 0.0))) :pattern ((trunc8 x)))))
+(assert (forall ((x Real)) (! (= (trunc8 (- x)) (- (trunc8 x))) :pattern ((trunc8 (- x))))))
+(assert (forall ((x Real)) (! (= (trunc8 (trunc8 x)) (trunc8 x)) :pattern ((trunc8 (trunc8 x))))))
+(assert (= (trunc8 0.0) 0.0))
 `
 
 type SolverResult struct {
